@@ -199,13 +199,19 @@ def check_outcome(net, ws, out, expect_success, label, sigbase):
     return None
 
 
-def recipe_case(status, upgrade, connection, accept, offered, selected, prior=None):
+FORMS = ["list", "tuple", "iterator", "generator"]
+
+
+def recipe_case(status, upgrade, connection, accept, offered, selected, prior=None, form="list"):
     def respond(req, hop, sock):
         return build_response(req, status, upgrade, connection, accept, selected)
 
     opts = {}
     if offered:
-        opts["subprotocols"] = offered
+        # the option as a list (documented), a tuple, or a one-shot iterable: whatever the library does with the other forms, it never
+        # reports success for a selection it did not offer
+        opts["subprotocols"] = {"list": lambda: list(offered), "tuple": lambda: tuple(offered), "iterator": lambda: iter(list(offered)),
+                                "generator": lambda: (x for x in offered)}[form]()
     net, ws, out, hops = run_connect(respond, opts, use_cc=(not prior and hash((status, upgrade, connection, accept, selected)) % 3 == 0), prior=prior)
     ok = status == 101 and has_token(upgrade, "websocket") and has_token(connection, "upgrade") and accept == "right"
     expect = ok
@@ -214,7 +220,11 @@ def recipe_case(status, upgrade, connection, accept, offered, selected, prior=No
             expect = False
         elif selected not in offered:
             expect = None  # differs in case only: don't-care
-    label = "response status=%d Upgrade=%r Connection=%r accept=%s offered=%r selected=%r" % (status, upgrade, connection, accept, offered, selected)
+    if form != "list" and expect is True:
+        expect = None  # only the list form is documented: a valid selection may be accepted or refused
+    if form != "list" and out[0] == "exc" and isinstance(out[1], (TypeError, AttributeError)) and not net.socks:
+        return None  # refused as a wrong argument type before any network activity
+    label = "response status=%d Upgrade=%r Connection=%r accept=%s offered=%r (given as %s) selected=%r" % (status, upgrade, connection, accept, offered, form, selected)
     if prior:
         label += " [object re-used after an earlier connection died with ECONNRESET]"
     why = "status" if status != 101 else ("upgrade" if not has_token(upgrade, "websocket") else ("connection" if not has_token(connection, "upgrade") else ("accept:" + accept if accept != "right" else "subprotocol")))
@@ -378,6 +388,10 @@ def run_task(desc):
                 for up, co in (("websocket", "Upgrade"), (UPGRADES[0], CONNECTIONS[0])):
                     n += 1
                     rec(guarded(recipe_case, status, up, co, "right", of, se), {"case": "recipe", "args": [status, up, co, "right", of, se]})
+                if of:
+                    for form in FORMS[1:]:
+                        n += 1
+                        rec(guarded(recipe_case, status, "websocket", "Upgrade", "right", of, se, None, form), {"case": "recipe", "args": [status, "websocket", "Upgrade", "right", of, se, None, form]})
         for up, co, ac, of, se in itertools.product(UPGRADES, CONNECTIONS, ACCEPTS, OFFERED[:2], SELECTED[:4]):
             n += 1
             rec(guarded(recipe_case, status, up, co, ac, of, se), {"case": "recipe", "args": [status, up, co, ac, of, se]})
